@@ -5,18 +5,31 @@ extern "C" {
     fn verif_sha256_compress(state: *mut u32, block: *const u8) -> i32;
 }
 
+/// Upper bound on the number of 64-byte blocks a single `process_blocks` call may carry in a harness
+/// (a single `input()` of up to 64*MAX_BLOCKS+63 bytes). ASSERTED, not assumed: a harness that hashes
+/// more per call fails. The bound keeps symbolic execution finite on paths where the slice length is
+/// not a constant for CBMC (it would otherwise unwind this loop to the harness' unwind bound).
+pub const MAX_BLOCKS: usize = 2;
+
 /// Replacement for the private `hashes::sha256::HashEngine::process_blocks`:
 /// one uninterpreted-function application per 64-byte block.
 pub fn sha256_process_blocks(state: &mut [u32; 8], blocks: &[u8]) {
     #[cfg(not(verif_native))]
     {
         let n = blocks.len() / 64;
-        let mut i = 0;
-        while i < n {
+        if n > MAX_BLOCKS {
+            assert!(false, "SHA stub: more than MAX_BLOCKS blocks in one process_blocks call");
+            kani::assume(false);
+        }
+        if n >= 1 {
             unsafe {
-                verif_sha256_compress(state.as_mut_ptr(), blocks.as_ptr().add(i * 64));
+                verif_sha256_compress(state.as_mut_ptr(), blocks.as_ptr());
             }
-            i += 1;
+        }
+        if n >= 2 {
+            unsafe {
+                verif_sha256_compress(state.as_mut_ptr(), blocks.as_ptr().add(64));
+            }
         }
     }
     #[cfg(verif_native)]
@@ -43,4 +56,34 @@ pub fn vec_push_within_capacity<T, A: std::alloc::Allocator>(v: &mut Vec<T, A>, 
         core::ptr::write(v.as_mut_ptr().add(len), value);
         v.set_len(len + 1);
     }
+}
+
+/// Replacement for `core::any::TypeId::of`. The real one yields a constant whose 128 hash bits are
+/// stored as pointers; `TypeId == TypeId` then compares pointer bits, which CBMC's symbolic execution
+/// cannot decide when the two constants come from different evaluations, so both arms of every
+/// `if TypeId::of::<T>() == TypeId::of::<u8>()` in `encode.rs` were explored (path explosion).
+/// The model derives the 128 bits from `type_name::<T>()` (FNV-1a, two lanes) with a concrete loop:
+/// equal types give equal ids; distinct type names give distinct ids unless FNV collides, which
+/// the harness `probe_typeid_model` checks for the types compared in this code base.
+pub fn typeid_of_model<T: ?Sized + 'static>() -> core::any::TypeId {
+    let name = core::any::type_name::<T>().as_bytes();
+    let mut h0: u64 = 0xcbf29ce484222325;
+    let mut h1: u64 = 0x84222325cbf29ce4;
+    let mut i = 0;
+    while i < name.len() {
+        h0 = (h0 ^ name[i] as u64).wrapping_mul(0x100000001b3);
+        h1 = (h1 ^ (name[i] as u64).wrapping_add(i as u64)).wrapping_mul(0x100000001b3);
+        i += 1;
+    }
+    unsafe { core::mem::transmute::<[u64; 2], core::any::TypeId>([h0, h1]) }
+}
+
+pub fn typeid_eq_model(a: &core::any::TypeId, b: &core::any::TypeId) -> bool {
+    let x: [*const (); 2] = unsafe { core::mem::transmute_copy(a) };
+    let y: [*const (); 2] = unsafe { core::mem::transmute_copy(b) };
+    x[0] == y[0] && x[1] == y[1]
+}
+pub trait _Unused {}
+pub mod traits {
+    pub use core::cmp::PartialEq as PEq;
 }
